@@ -46,7 +46,7 @@ func c14TsListEq(a, b []*model.Timestamp) bool {
 func c14Value(tag string) interface{} {
 	switch vf.Choice(tag, 6) {
 	case 0:
-		return "str"
+		return c14Strings[vf.Choice(tag+".s", len(c14Strings))]
 	case 1:
 		return 7.5
 	case 2:
@@ -121,22 +121,26 @@ func sameOperation(x, y iface.Operation) bool {
 	return false
 }
 
+// strings with separators, escapes, control characters and wide code points
+var c14Strings = []string{"key", "q\"b\\s/:~\n\t", "ctl\x07\x0b\x00\x1c\x7f", "\u00e9\u4e2d\U0001F600\U000E0001"}
+
 func VF_C14_Encoding() {
 	w := vfNewWorld()
 	kind := vf.Choice("kind", 13)
+	str := c14Strings[vf.Choice("string", len(c14Strings))]
 	vf.Tag("kind", kind)
 	var op iface.Operation
 	switch kind {
 	case 0:
 		op = operations.NewIncreaseOperation(vf.I32("delta"))
 	case 1:
-		t := operations.NewTransactionOperation("tag")
+		t := operations.NewTransactionOperation(str)
 		t.GetBody().NumOfOps = vf.I32("n")
 		op = t
 	case 2:
-		op = operations.NewPutOperation("key", c14Value("v"))
+		op = operations.NewPutOperation(str, c14Value("v"))
 	case 3:
-		op = operations.NewRemoveOperation("key")
+		op = operations.NewRemoveOperation(str)
 	case 4:
 		o := operations.NewInsertOperation(0, []interface{}{c14Value("v0"), "second"})
 		o.GetBody().T = c14TS("target")
@@ -150,9 +154,9 @@ func VF_C14_Encoding() {
 		o.GetBody().T = []*model.Timestamp{c14TS("t0")}
 		op = o
 	case 7:
-		op = operations.NewDocPutInObjOperation(c14TS("parent"), "key", c14Value("v"))
+		op = operations.NewDocPutInObjOperation(c14TS("parent"), str, c14Value("v"))
 	case 8:
-		op = operations.NewDocRemoveInObjOperation(c14TS("parent"), "key")
+		op = operations.NewDocRemoveInObjOperation(c14TS("parent"), str)
 	case 9:
 		o := operations.NewDocInsertToArrayOperation(c14TS("parent"), 0, []interface{}{c14Value("v0")})
 		o.GetBody().T = c14TS("target")
@@ -166,7 +170,7 @@ func VF_C14_Encoding() {
 		o.GetBody().T = []*model.Timestamp{c14TS("t0")}
 		op = o
 	case 12:
-		op = operations.NewErrorOperationWithCodeAndMsg(302, "duplicate")
+		op = operations.NewErrorOperationWithCodeAndMsg(302, str)
 	}
 	id := &model.OperationID{Era: 0, Lamport: vf.U64("id.lamport"), CUID: vf.UID("id.cuid"), Seq: vf.U64("id.seq")}
 	op.SetID(id)
